@@ -4,6 +4,7 @@
 set -u
 patch=$1; tier=$2; shift 2
 cd /verif
+export GOSYM_EVIDENCE_DIR=/tmp/seed_evidence  # keep /verif/evidence for the unchanged tree
 if [ -n "$(git -C /repo status --porcelain)" ]; then echo "/repo not clean"; exit 2; fi
 git -C /repo apply "$patch" || exit 2
 trap 'git -C /repo checkout -q -- .; git -C /repo clean -fdq' EXIT
